@@ -66,9 +66,6 @@ impl RefMmr {
     pub fn size(&self) -> u64 {
         self.nodes.len() as u64
     }
-    pub fn n_leaves(&self) -> usize {
-        self.leaf_pos.len()
-    }
     pub fn root(&self) -> Option<Bytes> {
         let mut it = self.peaks.iter().rev();
         let mut acc = self.nodes[it.next()?.1].1.clone();
